@@ -41,6 +41,16 @@ Definition k_m_t (tol : float) (x : option (dm float)) (e : option (N * N * list
   | None, None => true
   | _, _ => false
   end.
+(* absolute tolerance (the harness passes 1e-11 resp. 1e-9 times the scale of the INPUT) *)
+Definition feq_a (t a b : float) : bool := feq a b || PrimFloat.leb (fabs (PrimFloat.sub a b)) t.
+Definition k_m_a (t : float) (x : option (dm float)) (e : option (N * N * list float)) : bool :=
+  match x, e with
+  | Some m, Some v => view_eqb (feq_a t) m v
+  | None, None => true
+  | _, _ => false
+  end.
+Definition k_f_a (t : float) (x e : option float) : bool := option_eqb (feq_a t) x e.
+Definition k_l_a (t : float) (x e : option (list float)) : bool := option_eqb (list_eqb (feq_a t)) x e.
 Definition k_f_x (x e : option float) : bool := option_eqb feq x e.
 Definition k_f_t (tol : float) (x e : option float) : bool := option_eqb (feq_tol tol) x e.
 Definition k_l_x (x e : option (list float)) : bool := option_eqb (list_eqb feq) x e.
@@ -118,9 +128,7 @@ Definition y_norm2 (m : dm float) := Some (norm2 F m).
 Definition y_norm_pinf (m : dm float) := Some (match norm_pinf F m with Some v => v | None => neg_infinity end).
 Definition y_norm_ninf (m : dm float) := Some (match norm_ninf F m with Some v => v | None => infinity end).
 Definition y_norm_p (m : dm float) (p : float) := Some (norm_p F m p).
-(* max_diff under the common contract "same shape" (on equal shapes C03's storage-order fold and the
-   bindings' (r, c) loop visit the same pairs) *)
-Definition y_max_diff (a b : dm float) := if same_shape a b then max_diff F a b else None.
+Definition y_max_diff := max_diff F.                         (* rejects operands of different shape *)
 Definition y_column_mean (m : dm float) := Some (column_mean F m).
 Definition y_argmax (m : dm float) := Some (argmax F m).
 Definition y_unique (m : dm float) := Some (unique F m).
@@ -165,3 +173,4 @@ Definition y_vtake (a : list float) (index : list N) := vtake F a (map nn index)
 Definition y_vcopy_from (a b : list float) := vcopy_from a b.
 Definition y_vunique (a : list float) := Some (vunique F a).
 Definition y_vfill (n : N) (v : float) := Some (vfill (nn n) v).
+Definition y_vlen (a : list float) := Some [length a].
